@@ -96,6 +96,24 @@ func TestCheck(t *testing.T) {
 			}
 			rt.Count("pairs_from_an_estimate_grown_into_its_maximum", 1)
 		}
+		halfBand := class == 7 && kind == "gradient2"
+		var bandRTT int64
+		if halfBand {
+			// Gradient2 after a constant-RTT run and one slower sample (a fractional estimate), the final pair taken with an
+			// in-flight count right at half the estimate: the faster sample must not be held back where the slower one grows
+			spec.Smoothing = []float64{1, 0.5, 0.75}[r.IntN(3)]
+			spec.QueueKind, spec.QueueArg = "fixed", 3+r.IntN(6)
+			spec.Min = 1
+			spec.Initial = spec.QueueArg + r.IntN(30)
+			spec.Max = spec.Initial + 50 + r.IntN(200)
+			bandRTT = int64(1) << uint(10+r.IntN(20))
+			pre = nil
+			for i := 2 + r.IntN(4); i > 0; i-- {
+				pre = append(pre, limgen.Sample{RTT: bandRTT, InFlight: 1 << 20})
+			}
+			pre = append(pre, limgen.Sample{RTT: bandRTT + bandRTT*int64(2+r.IntN(8))/10, InFlight: 1 << 20})
+			rt.Count("gradient2_pairs_with_inflight_at_half_the_estimate", 1)
+		}
 		seed := int64(r.Uint64() >> 1)
 		build := func() core.Limit {
 			mrand.Seed(seed)
@@ -170,6 +188,16 @@ func TestCheck(t *testing.T) {
 			inflight = before + r.IntN(20)
 		}
 		drop := r.IntN(8) == 0
+		if halfBand {
+			// the long-term RTT is still the arithmetic mean of what was seen (warm-up): rtt_hi lies a few percent above it
+			var sum int64
+			for _, p := range pre {
+				sum += p.RTT
+			}
+			mean := sum / int64(len(pre))
+			lo, hi = bandRTT, mean+mean*int64(1+r.IntN(4))/100
+			inflight, drop = before/2+1+r.IntN(2), false
+		}
 		a.OnSample(0, lo, inflight, drop)
 		b.OnSample(0, hi, inflight, drop)
 		ea, eb := a.EstimatedLimit(), b.EstimatedLimit()
